@@ -8,6 +8,8 @@ from __future__ import annotations
 
 import random
 
+import asyncio
+
 from . import ncp_ezsp, vloop
 from .c04 import pmap
 from .core import Ctx
@@ -66,7 +68,14 @@ def run_case(case):
     ver = case["ver"]
 
     async def main(loop):
-        ezsp, gw, ncp = await ncp_ezsp.make_ezsp(loop, ver)
+        via = case.get("via", "ezsp")
+        if via == "ezsp":
+            ezsp, gw, ncp = await ncp_ezsp.make_ezsp(loop, ver)
+        else:
+            # the write as the application triggers it: ControllerApplication.connect() (bring-up, then write_config with the configured
+            # settings) and, for "reset", a later ControllerApplication._reset() on the same application
+            ncp = ncp_ezsp.NcpEzsp(ver, loop, negotiated=False)
+            gw = ncp_ezsp.FakeGateway(ncp)
         t = ncp.t
         ids = {}
         for name in set(case["cur"]) | set(case["unreadable"]) | set(case["rejected"]):
@@ -85,8 +94,42 @@ def run_case(case):
                 if name in case["rejected"]:
                     ncp.config_reject.add(cid)
         returned, exc = 1, ""
+        cur_now = {}
         try:
-            await ezsp.write_config(dict(case["ovr"]))
+            if via == "ezsp":
+                await ezsp.write_config(dict(case["ovr"]))
+            else:
+                import bellows.uart
+                from . import apprig, compat
+
+                async def fake_connect(config, application, use_thread=True):
+                    ncp.deliver = application.frame_received
+                    return gw
+                orig = bellows.uart.connect
+                bellows.uart.connect = fake_connect
+                try:
+                    app = compat.make_app({"ezsp_config": dict(case["ovr"])})
+                    tk = asyncio.ensure_future(app.connect())
+                    await apprig.run_until_done(loop, [tk], 300)
+                    tk.result()
+                    if via == "reset":
+                        ncp.log.clear()
+                        # what the NCP reports now (after the first write) is what the second write starts from
+                        for cid, v in ncp.config.items():
+                            try:
+                                cur_now[t.EzspConfigId(cid).name] = int(v)
+                            except ValueError:
+                                pass
+                        for vid, v in ncp.values.items():
+                            try:
+                                cur_now[t.EzspValueId(vid).name] = int.from_bytes(bytes(v), "little")
+                            except ValueError:
+                                pass
+                        tk = asyncio.ensure_future(app._reset())
+                        await apprig.run_until_done(loop, [tk], 300)
+                        tk.result()
+                finally:
+                    bellows.uart.connect = orig
         except BaseException as e:  # noqa
             returned, exc = 0, type(e).__name__ + ":" + str(e)[:60]
         sets = []
@@ -98,7 +141,7 @@ def run_case(case):
                              "v": int.from_bytes(bytes(en["args"]["value"]), "little")})
         dflt = defaults_of(ver)
         ev = {"a": "write", "ver": ver, "defaults": dflt,
-              "cur": {k: v for k, v in case["cur"].items() if k not in case["unreadable"]},
+              "cur": {k: v for k, v in (cur_now or case["cur"]).items() if k not in case["unreadable"]},
               "ovr": {k: v for k, v in case["ovr"].items() if v is not None},
               "disabled": sorted(k for k, v in case["ovr"].items() if v is None),
               "rejected": case["rejected"], "sets": sets, "returned": returned, "exc": exc}
@@ -165,14 +208,23 @@ def run(ctx: Ctx):
             for v in sorted({ok[0], ok[-1]}) if ok else ():
                 cases.append({"ver": ver, "ovr": {name: v}, "cur": dict({k: x for k, x in d.items()}, **{name: min(65535, v + 3)}),
                               "unreadable": [], "rejected": []})
-        for _ in range(n):
+        for i in range(n):
             cases.append(gen_case(ver, rng, schema, keys))
+            if i % 3 == 0:          # the same kind of case through the application's connect() / _reset()
+                cases.append(dict(gen_case(ver, rng, schema, keys), via="app" if i % 6 else "reset"))
+        # the capacity settings of the version with the NCP reporting more, no override, written through the application
+        for via in ("app", "reset"):
+            cases.append({"ver": ver, "ovr": {}, "cur": {k: v + 9 for k, v in d.items() if v < 60000}, "unreadable": [], "rejected": [], "via": via})
+            for name in keys:
+                if name in d or ctx.quick and hash(name) % 4:
+                    continue
+                cases.append({"ver": ver, "ovr": {}, "cur": dict({k: v for k, v in d.items()}, **{name: 40}), "unreadable": [], "rejected": [], "via": via})
     traces = pmap(run_case, cases, chunksize=16)
     ctx.evaluations = len(traces)
     ctx.distinct_nontrivial = len({str(c) for c in cases})
     ctx.rule = ("per protocol version 4..14: reported values drawn below/equal/above/unreadable per setting, 0-5 overrides drawn from the "
                 "version's whole schema (values accepted by the schema, or disabled), buffer-count overrides, 20% rejected settings; plus "
-                "all-equal, all-above-all-rejected and all-unreadable cases, and every setting of the schema disabled once / overridden with the smallest and largest accepted candidate; distinct = distinct case record")
+                "all-equal, all-above-all-rejected and all-unreadable cases, and every setting of the schema disabled once / overridden with the smallest and largest accepted candidate; a third of the cases through ControllerApplication.connect() and a later _reset(); distinct = distinct case record")
     ctx.add_sample(traces[len(traces) // 2][0])
     ctx.validate_traces("Trace_ConfigWrite", traces, invariants=INVS, metas=cases, label="config write", sig=sig)
     ctx.exhaustive = False
